@@ -19,7 +19,11 @@ pub fn run() {
         let survivor = a.get("survivor").map(|s| s == "1").unwrap_or(false);
         let natt: usize = a.get("natt").map(|s| s.parse().unwrap()).unwrap_or(0);
         let observe = a.get("observe").cloned().unwrap_or_else(|| "recv".into());
+        let nreg: usize = a.get("nreg").map(|s| s.parse().unwrap()).unwrap_or(0);
+        let fds_before = open_fds().len();
+        let maps_before = shm_mappings();
         let (tx, rx) = platform::channel().unwrap();
+        let regions: Vec<platform::OsIpcSharedMemory> = (0..nreg).map(|i| platform::OsIpcSharedMemory::from_bytes(&payload(77 + i as u64, 3000 + i))).collect();
         // attachments of the target message: senders whose receivers we keep, to see that they are released
         let mut kept = Vec::new();
         let mut atts = Vec::new();
@@ -36,12 +40,13 @@ pub fn run() {
             let _ = tx.send(&tagged(7, 0, 64), vec![], vec![]);
             mark(&format!("endsend {}.P", id));
             mark(&format!("send {}.T", id));
-            let _ = tx.send(&tagged(7, 1, len), atts, vec![]);
+            let _ = tx.send(&tagged(7, 1, len), atts, regions);
             mark(&format!("endsend {}.T", id));
             mark(&format!("calls {} {}", id, calls()));
             unsafe { libc::_exit(0) };
         }
         drop(atts);
+        drop(regions);
         let mut st = 0;
         unsafe { libc::waitpid(pid, &mut st, 0) };
         let killed = libc::WIFSIGNALED(st);
@@ -49,7 +54,11 @@ pub fn run() {
         // the survivor's message carries an endpoint of its own: it must arrive with exactly that attachment, whatever an abandoned
         // message before it had carried
         let (satt_tx, satt_rx) = platform::channel().unwrap();
-        if survivor {
+        let mut idle_tx = None;
+        if survivor && observe == "timeout_idle" {
+            idle_tx = Some(tx); // alive, silent during the observation
+            drop(satt_tx);
+        } else if survivor {
             sent_s = json!(tx.send(&tagged(9, 0, 48), vec![OsIpcChannel::Sender(satt_tx)], vec![]).is_ok());
         } else {
             drop(tx);
@@ -112,6 +121,29 @@ pub fn run() {
                     // the set still holds the member (if it was not closed): see that it is still connected
                     (log, None)
                 },
+                "timeout_idle" => {
+                    // the channel is connected (a sender survives) but nothing complete is queued: whatever the crashed sender left
+                    // behind, a timed receive must wait its time before it says 'empty'
+                    let mut waits = Vec::new();
+                    for _ in 0..2 {
+                        let t0 = std::time::Instant::now();
+                        match rx.try_recv_timeout(std::time::Duration::from_millis(250)) {
+                            Ok((d, mut ch, _)) => {
+                                for c in ch.iter_mut() {
+                                    drop(c.to_sender());
+                                }
+                                push(&mut log, &d);
+                            },
+                            Err(e) => {
+                                let w = classify_recv(e);
+                                waits.push((w.clone(), t0.elapsed().as_micros() as u64));
+                                log.push(json!(w));
+                            },
+                        }
+                    }
+                    log.push(json!({"waits": waits}));
+                    (log, None)
+                },
                 _ => {
                     let nb = obs == "try";
                     loop {
@@ -161,9 +193,14 @@ pub fn run() {
                 Err(e) => classify_recv(e),
             });
         }
+        drop(idle_tx);
+        drop(kept);
+        drop(satt_rx);
+        let (fds_after, maps_after) = (open_fds().len(), shm_mappings());
         println!(
             "{}",
-            json!({"kind":"crash","id":id,"len":len,"k":k,"survivor":survivor,"natt":natt,"observe":observe,"killed":killed,
+            json!({"kind":"crash","id":id,"len":len,"k":k,"survivor":survivor,"natt":natt,"nreg":nreg,"observe":observe,"killed":killed,
+                   "fds_before":fds_before,"fds_after":fds_after,"maps_before":maps_before,"maps_after":maps_after,
                    "survivor_sent":sent_s,"log":log,"after":after,"hang":hang,"att_state":att_state,"survivor_probe":survivor_probe})
         );
     }
